@@ -71,3 +71,20 @@ Example ex_roll : real_roll_fore [1; 2; 3; 4] 3 = Some [2; 3; 1; 4] /\ real_roll
                   real_roll_back_ [1; 2; 3; 4; 5] 4 [0; 0; 0] 1 = Some ([4; 1; 2; 3; 5], [4; 0; 0]) /\
                   real_roll_fore_ [1; 2] 0 [0] 3 = Some ([1; 2], [0]).
 Proof. repeat split; reflexivity. Qed.
+
+(* hypotheses of the scaling / definedness / round-trip theorems *)
+Example ex_scaling_hyp : 0 < Rmax (Rabs 3) (Rabs (-4)) /\ 0 < Rmax (Rmax (Rabs 2) (Rabs (-3))) (Rabs 6) /\ 0 < maxabs [3; -4; 0] 0.
+Proof.
+  unfold maxabs. cbn [fold_left]. rewrite abs3, Rabs_R0, (Rabs_left (-4)), (Rabs_left (-3)), (Rabs_right 2), (Rabs_right 6) by lra.
+  unfold Rmax. repeat destruct Rle_dec; lra.
+Qed.
+Example ex_scaling_val : real_norm2 R_ops 3 (-4) = R_sqrt.sqrt (3 / 4 * (3 / 4) + 1) * 4.
+Proof.
+  rewrite ex_norm2. replace (3 / 4 * (3 / 4) + 1) with ((5 / 4) * (5 / 4)) by field. rewrite sqrt_square by lra. field.
+Qed.
+Example ex_roundtrip_hyp : (-1 <> 0 \/ 0 <> 0) /\ (0 <> 0 \/ 2 <> 0).
+Proof. split; [left|right]; lra. Qed.
+Example ex_defined_hyp : -1 < - / 2 /\ 1 <= 1 /\ -1 < 3 / 4 < 1.
+Proof. lra. Qed.
+Example ex_oob_hyp : (length [1; 2] < 3)%nat.
+Proof. cbn. lia. Qed.
